@@ -45,6 +45,11 @@ tags: income
 match: any(r.amount == amount for r in prices)
 category: Priced
 subcategory: P
+
+[Sku]
+match: contains("MUSEUM") and any(r.sku == "Z9" and r.amount == 1234.56 for r in skus)
+category: SkuCat
+subcategory: S
 '''
 RULES_SPECIFIC = RULES.replace('[Large]\nmatch: big', '[Large]\nmatch: big or contains("COFFEE ROASTERS WHOLESALE")')
 
@@ -99,6 +104,11 @@ def build(setup):
         b.write('data/orders.csv', 'Date,Id,Item,Amount\n' + '\n'.join('01/01/2025,%s,%s,5.00' % o for o in ORDERS) + '\n')
         sources.append({'name': 'orders', 'file': 'data/orders.csv', 'format': '{date:%m/%d/%Y}, {id}, {item}, {amount}',
                         'columns': {'description': '{item}'}, 'supplemental': True})
+    if setup.get('supp_named'):
+        # a supplemental source in "{description} + named column" mode, European amounts with a thousands separator
+        b.write('data/skus.csv', 'Date;Text;Sku;Amount\n01/01/2025;Big thing;Z9;1.234,56\n01/02/2025;Other;Y8;7,50\n')
+        sources.append({'name': 'skus', 'file': 'data/skus.csv', 'format': '{date:%m/%d/%Y}, {description}, {sku}, {amount}', 'delimiter': ';', 'decimal_separator': ',',
+                        'supplemental': True})
     if setup.get('supp_euro'):
         # a second supplemental source with its OWN delimiter and decimal separator
         b.write('data/prices.csv', 'Date;Sku;Amount\n01/01/2025;A1;12,25\n01/02/2025;B2;7,50\n')
@@ -122,7 +132,7 @@ def classify(desc, amount, setup):
     if 'COFFEE' in desc:
         cand.append(('Coffee', 'Food', 'Coffee', ['daily'], (50, 1, 0, 6)))
     if 'ORDER' in desc and setup['supplemental'] and any(('ORDER %s' % i) in desc for i, _ in ORDERS):
-        cand.append(('Order', 'Shopping', 'Online', ['matched'], (50, 1, 0, 16)))
+        cand.append(('Order', 'Shopping', 'Online', ['matched'], (50, 1, 0, 5)))
     large = amount > 500 or (setup.get('specific_rules') and 'COFFEE ROASTERS WHOLESALE' in desc)
     if large:
         cand.append(('Large', 'Large', 'L', [], (50, 1 if setup.get('specific_rules') else 0, 0, 25 if setup.get('specific_rules') else 0)))
@@ -130,6 +140,8 @@ def classify(desc, amount, setup):
         cand.append(('Pay', 'Income', 'Job', ['income'], (50, 1, 0, 7)))
     if setup.get('supp_euro') and abs(amount - 12.25) < 1e-9:
         cand.append(('Priced', 'Priced', 'P', [], (50, 0, 0, 0)))
+    if setup.get('supp_named') and 'MUSEUM' in desc:
+        cand.append(('Sku', 'SkuCat', 'S', [], (50, 1, 0, 6)))
     tags = sorted({t for c in cand for t in c[3]})
     if not cand:
         return None, tags
@@ -219,7 +231,7 @@ def main():
                 if key == 'decimal_separator' and v == ',' and s[src]['delimiter'] is None:
                     s[src]['delimiter'] = ';'
                 check(s, '%s.%s:%r' % (src, key, v))
-    for key, v in (('rule_mode', 'most_specific'), ('views', True), ('supplemental', False), ('specific_rules', True), ('supp_euro', True)):
+    for key, v in (('rule_mode', 'most_specific'), ('views', True), ('supplemental', False), ('specific_rules', True), ('supp_euro', True), ('supp_named', True)):
         s = copy.deepcopy(base)
         s[key] = v
         check(s, '%s:%r' % (key, v))
